@@ -8,8 +8,8 @@ from pedal.tifa import tifa_analysis
 from pedal.types.normalize import get_pedal_type_from_value, normalize_type
 from pedal.types.new_types import is_subtype
 
-SAMPLES = {'int': ['3', '0', '-2', '7'], 'float': ['2.5', '0.0', '-1.5'], 'str': ["'ab'", "''", "'%d'"], 'list': ['[1, 2]', '[]'],
-           'tuple': ['(1, 2)', '()', '(3,)']}
+SAMPLES = {'int': ['3', '0', '-2', '7'], 'float': ['2.5', '0.0', '-1.5'], 'str': ["'ab'", "''", "'%d'"], 'list': ['[1, 2]', '[]', "['x', 'y']", '[2.5]'],
+           'tuple': ['(1, 2)', '()', '(3,)', "('a', 2.5)"]}
 CORE = {int: 'int', float: 'float', str: 'str', list: 'list', tuple: 'tuple', bool: 'bool'}
 SYMS = {'Add': '+', 'Sub': '-', 'Mult': '*', 'Div': '/', 'FloorDiv': '//', 'Mod': '%', 'Pow': '**', 'LShift': '<<', 'RShift': '>>',
         'BitOr': '|', 'BitXor': '^', 'BitAnd': '&', 'Lt': '<', 'LtE': '<=', 'Gt': '>', 'GtE': '>=', 'Eq': '==', 'NotEq': '!=',
@@ -57,6 +57,11 @@ def main():
             if not inc and t is not None and hasattr(t, 'is_subtype'):
                 for va in SAMPLES[a]:
                     for vb in SAMPLES[b]:
+                        # the type inferred for THESE operand types (first samples); containers with other element types are
+                        # other operand types: they are analysed on their own below (per_sample)
+                        if (a in ('list', 'tuple') and va not in (SAMPLES[a][0], SAMPLES[a][1])) or \
+                                (b in ('list', 'tuple') and vb not in (SAMPLES[b][0], SAMPLES[b][1])):
+                            continue
                         kind, val = live('x %s y' % SYMS[op], {'x': eval(va), 'y': eval(vb)})
                         if kind == 'ok':
                             conf.append([repr(val), bool(is_subtype(get_pedal_type_from_value(val), t))])
